@@ -91,6 +91,7 @@ structure P where
   curIdx : Nat := 0
   flagSubAt : Option Nat := none
   flagSubSkip : Nat := 0
+  flagSubConsumed : Nat := 0          -- short flags of the current cluster consumed up to and including the flag subcommand
 deriving Repr
 
 abbrev R (α : Type) := P × Except EK α
@@ -395,8 +396,8 @@ def parseLongArg (c : Cmd) (longArg : Bytes) (longIsUtf8 : Bool) (longValue : Op
 
 /-- the `while let Some(c) = short_arg.next_flag()` loop of `parse_short_arg`;
 structural on the unread characters of the cluster -/
-def shortLoop (c : Cmd) : ShortFlags → Nat → ParseResult → Bool → P → R (ParseResult × Bool)
-  | sf, fuel, ret, vaf, p =>
+def shortLoop (c : Cmd) : ShortFlags → Nat → Nat → ParseResult → Bool → P → R (ParseResult × Bool)
+  | sf, fuel, consumed, ret, vaf, p =>
   match fuel with
   | 0 => (p, .ok (ret, vaf))
   | fuel+1 =>
@@ -409,7 +410,7 @@ def shortLoop (c : Cmd) : ShortFlags → Nat → ParseResult → Bool → P → 
         if !a.takesValue then
           match react c (some .short) .cmdline a [] none p with
           | (p1, .error e) => (p1, .error e)
-          | (p1, .ok r) => shortLoop c sf1 fuel r true p1
+          | (p1, .ok r) => shortLoop c sf1 fuel (consumed + 1) r true p1
         else
           let val0 : Bytes := (sf1.nextValueOs.2).getD []
           let val : Option Bytes := if val0.isEmpty then none else some val0
@@ -419,7 +420,7 @@ def shortLoop (c : Cmd) : ShortFlags → Nat → ParseResult → Bool → P → 
             | none => (val, false)
           match parseOptValue c .short val a hasEq p with
           | (p1, .error e) => (p1, .error e)
-          | (p1, .ok .attachedValueNotConsumed) => shortLoop c sf1 fuel ret true p1
+          | (p1, .ok .attachedValueNotConsumed) => shortLoop c sf1 fuel (consumed + 1) ret true p1
           | (p1, .ok x) => (p1, .ok (x, true))
       | none =>
         match c.findShortSubcmd ch with
@@ -429,7 +430,8 @@ def shortLoop (c : Cmd) : ShortFlags → Nat → ParseResult → Bool → P → 
           | (p1, .ok ()) =>
             let cur := p1.curIdx + 1
             let fsAt := p1.flagSubAt.getD cur
-            let p2 := { p1 with curIdx := cur, flagSubAt := if sf1.isEmpty then none else some fsAt }
+            let p2 := { p1 with curIdx := cur, flagSubAt := if sf1.isEmpty then none else some fsAt,
+                                flagSubConsumed := consumed + 1 }
             (p2, .ok (.flagSubCommand name, vaf))
         | none => (p, .ok (.noMatchingArg, vaf))
 
@@ -451,7 +453,7 @@ def parseShortArg (c : Cmd) (sf : ShortFlags) (st : ParseState) (posCounter : Na
     let p0 := { p with flagSubSkip := 0 }
     match ShortFlags.advanceBy skip 0 sf with
     | (_, some _) => (p0, .error (.panic "tracking of `flag_subcmd_skip` is off"))
-    | (sf1, none) => shortLoop c sf1 (sf1.chars.length + 2) .noArg validArgFound p0
+    | (sf1, none) => shortLoop c sf1 (sf1.chars.length + 2) skip .noArg validArgFound p0
 
 /-- `is_new_arg` -/
 def isNewArg (next : Bytes) (cur : Arg) : Bool :=
@@ -613,10 +615,11 @@ def loop (c : Cmd) (similar : Bytes → Bytes → Bool) : LoopSt → List Bytes 
         | .opt id => loop c similar { ls with st := .opt id } rest p1
         | .flagSubCommand name =>
           match p1.flagSubAt with
-          | some fsAt =>
-            -- keep_state: revisit this cluster in the subcommand, skipping what was consumed
-            if p1.curIdx < fsAt then (p1, .error (.panic "cur_idx - at underflow")) else
-            ({ p1 with flagSubSkip := p1.curIdx - fsAt + 1 }, .ok (.sub name (tok :: rest) true ls.validArgFound))
+          | some _ =>
+            -- keep_state: revisit this cluster in the subcommand, skipping the flags already consumed
+            -- (after the `fix:` for finding F16 the count is kept directly; it used to be `cur_idx - at + 1`,
+            -- which is only right when the flag subcommand is the first flag of the cluster)
+            ({ p1 with flagSubSkip := p1.flagSubConsumed }, .ok (.sub name (tok :: rest) true ls.validArgFound))
           | none => (p1, .ok (.sub name rest false ls.validArgFound))
         | .equalsNotProvided => ((resolvePending c p1).1, .error .noEquals)
         | .noMatchingArg => ((resolvePending c p1).1, .error .unknownArgument)
